@@ -151,6 +151,36 @@ theorem drawAdvance_transparent (f : MonoFont) (st : Style) (n : Nat)
   rw [Nat.mul_comm, Nat.add_mul k 1, Nat.mul_add k]
   omega
 
+/-! ### The calls of `draw_string` in closed form -/
+
+/-- The glyph part: the binary-target calls lowered through the colour mode of the style. -/
+def glyphPartCalls (f : MonoFont) (atlas : Pt → Bool) (st : Style) (text : List Nat) (pos : Pt) : List Call :=
+  match st.textColor, st.bgColor with
+  | some tc, some bc => (binCalls f atlas true pos text).flatMap (Mode.both tc bc).lower
+  | some tc, none => (binCalls f atlas false pos text).flatMap (Mode.fg tc).lower
+  | none, some bc => (binCalls f atlas true pos text).flatMap (Mode.bg bc).lower
+  | none, none => []
+
+def decoPartCalls (f : MonoFont) (st : Style) (n : Nat) (pos : Pt) : List Call :=
+  if 0 < drawAdvance f st n then f.drawDecorations st (drawAdvance f st n) pos else []
+
+theorem deco_if (f : MonoFont) (st : Style) (x : Int) (W : Nat) (q : Pt) :
+    (if x + (W : Int) > x then f.drawDecorations st (x + (W : Int) - x).toNat q else []) =
+      if 0 < W then f.drawDecorations st W q else [] := by
+  by_cases h : 0 < W
+  · rw [if_pos (by omega), if_pos h]
+    congr 1
+    omega
+  · rw [if_neg (by omega), if_neg h]
+
+theorem drawString_calls (f : MonoFont) (atlas : Pt → Bool) (st : Style) (text : List Nat) (position : Pt)
+    (bl : Baseline) :
+    (f.drawString atlas st text position bl).1 =
+      glyphPartCalls f atlas st text ⟨position.x, position.y - f.baselineOffset bl⟩ ++
+        decoPartCalls f st text.length ⟨position.x, position.y - f.baselineOffset bl⟩ := by
+  unfold MonoFont.drawString glyphPartCalls decoPartCalls drawAdvance
+  cases htc : st.textColor <;> cases hbg : st.bgColor <;>
+    simp only [drawStringBinary_closed] <;> congr 1 <;> exact deco_if f st _ _ _
 theorem measureString_next (f : MonoFont) (st : Style) (text : List Nat) (position : Pt) (bl : Baseline) :
     (measureString f st text position bl).next = ⟨position.x + (bbWidth f text.length : Nat), position.y⟩ := rfl
 
